@@ -43,7 +43,8 @@ Fixpoint name_loop (fuel : nat) (d : list byte) (s : st) : outcome (list label *
       end
   end end.
 
-Definition name_fuel (d : list byte) : nat := N.to_nat (len d + 16600).
+(* enough for every input: see NameProofs.name_loop_fuel (measure 2 * (319 - name_size) + read cursor) *)
+Definition name_fuel (d : list byte) : nat := N.to_nat (len d + 640).
 Definition init_st (p : N) : st := {| pos := p; pp := p; following := false; nsize := 0; acc := [] |}.
 (* Name::parse(data, &mut position): the labels and the new position *)
 Definition parse_name (d : list byte) (p : N) : outcome (list label * N) := name_loop (name_fuel d) d (init_st p).
